@@ -7,11 +7,15 @@ Property theorems only. Models: M-Proto `Path.lean` (lexical `path/filepath`) an
 handling, the write loop). Findings D42 (conflicts compared on raw strings) and D34 (a module
 called "...thrift" left the output directory) are repaired in the code and in the model: their
 former negation witnesses are regression theorems here, and the positive properties hold
-without side conditions. D33 (write loop not atomic) is not repaired: still a NEGATION witness.
+without side conditions. D33 (a plan whose paths clash file-vs-directory, or name the output
+directory itself, was accepted and failed half-way through the write loop) is repaired too:
+its witness is a regression theorem, and an accepted plan is now written completely on every
+output directory that is not in the way (§9). What remains outside the statement is an output
+directory that IS in the way (an OS-level failure of a write).
 -/
 import ThriftVerif.Proto.PlanProofs3
 import ThriftVerif.Proto.PlanProofs4
-import ThriftVerif.Proto.PlanProofs6
+import ThriftVerif.Proto.PlanProofs7
 
 namespace ThriftVerif.Properties.C17
 open ThriftVerif.Proto
@@ -376,39 +380,159 @@ theorem dotdot_thrift_rejected_with_explicit_root :
     modulePath "/r.thrift".toList "/r.thrift".toList = none :=
   ThriftVerif.Proto.dotdot_thrift_rejected_with_explicit_root
 
-/-! ### 9. the write loop is not atomic (finding D33) -/
+/-! ### 9. no file-vs-directory clash reaches the write loop (finding D33, repaired) -/
 
-/-- NEGATION witness, D33: a plan that succeeded (`main/main.go` from one plugin, `main` from
-another — different keys, different cleaned paths) fails in the write loop AFTER the first
-file was written; the file stays. -/
-theorem write_loop_not_atomic :
+/-- REGRESSION, D33: `main/main.go` from one plugin and `main` from another — different keys,
+different cleaned paths — used to be accepted and then failed in the write loop AFTER the
+first file was written. Now the plan is refused, in either completion order; so is a plugin
+file `main` beside the core file `main/main.go`, a plugin file below that core file, and one
+plugin returning `a` and `a/b.go`. -/
+theorem file_vs_directory_refused :
     generatePlan "/r".toList "/o".toList []
         [some [("main/main.go".toList, [1])], some [("main".toList, [2])]] [0, 1]
-      = .ok [("/o/main/main.go".toList, [1]), ("/o/main".toList, [2])] ∧
-    ∃ fs, writeLoop ⟨[], []⟩ [("/o/main/main.go".toList, [1]), ("/o/main".toList, [2])] = (fs, false) ∧
-      fs.files ≠ [] :=
-  ⟨write_loop_not_atomic_plan, _, write_loop_not_atomic_witness, by decide⟩
+      = .error .fileVsDir ∧
+    generatePlan "/r".toList "/o".toList []
+        [some [("main/main.go".toList, [1])], some [("main".toList, [2])]] [1, 0]
+      = .error .fileVsDir ∧
+    generatePlan "/r".toList "/o".toList [⟨"/r/main.thrift".toList, some [1]⟩]
+        [some [("main".toList, [2])]] [0]
+      = .error .fileVsDir ∧
+    generatePlan "/r".toList "/o".toList [⟨"/r/main.thrift".toList, some [1]⟩]
+        [some [("main/main.go/x".toList, [2])]] [0]
+      = .error .fileVsDir ∧
+    generatePlan "/r".toList "/o".toList []
+        [some [("a".toList, [1]), ("a/b.go".toList, [2])]] [0]
+      = .error .fileVsDir :=
+  file_vs_directory_refused_witness
 
-/-- The positive side: on an empty output tree the loop writes the whole plan, whatever the
-iteration order, if the write paths (cleaned, absolute, not "/") are pairwise different and
-none is a directory prefix of another (`PrefixFree a b`: `a ≠ b`, neither `a/` a prefix of `b`
-nor `b/` of `a`). -/
-theorem write_loop_complete (ws : Files)
+/-- REGRESSION, D33: a plugin path that denotes the output directory itself ("", ".", "./",
+"/") is refused (and reported in preference to a file-vs-directory clash). -/
+theorem output_directory_refused :
+    generatePlan "/r".toList "/o".toList [] [some [([], [1])]] [0] = .error .outDirItself ∧
+    generatePlan "/r".toList "/o".toList [] [some [(".".toList, [1])]] [0] = .error .outDirItself ∧
+    generatePlan "/r".toList "/o".toList [] [some [("./".toList, [1])]] [0] = .error .outDirItself ∧
+    generatePlan "/r".toList "/o".toList [] [some [("/".toList, [1])]] [0] = .error .outDirItself ∧
+    generatePlan "/r".toList "/o".toList []
+        [some [("a/b".toList, [1]), ("a".toList, [2]), ([], [3])]] [0] = .error .outDirItself :=
+  output_directory_refused_witness
+
+/-- The check refuses exactly that: the empty key, or a key that is a proper directory prefix
+(`isDirOf d p`: `d ++ "/"` is a prefix of `p`) of another. -/
+theorem path_check_exact (fs : Files) :
+    checkPaths fs = none ↔
+      (hasKey fs [] = false ∧ ∀ x ∈ fs, ∀ y ∈ fs, isDirOf y.1 x.1 = false) :=
+  checkPaths_none_iff fs
+
+/-- Non-vacuity: names that merely resemble each other are accepted. -/
+example :
+    generatePlan "/r".toList "/o".toList [⟨"/r/main.thrift".toList, some [1]⟩]
+        [some [("main-x".toList, [2]), ("mai".toList, [3]), ("main/main.gox".toList, [4])]] [0]
+      = .ok [("/o/main/main.go".toList, [1]), ("/o/main-x".toList, [2]), ("/o/mai".toList, [3]),
+          ("/o/main/main.gox".toList, [4])] :=
+  near_clashes_accepted_witness
+
+/-- The positive form: the write paths of an accepted plan are pairwise prefix-free
+(`PrefixFree a b`: `a ≠ b`, neither `a/` a prefix of `b` nor `b/` of `a`), and none is "/" or
+the output directory itself. Absolute output directory; nothing else assumed. -/
+theorem plan_paths_prefix_free (root out : Str) (mods plugs ord) (ws : Files)
+    (h : generatePlan root out mods plugs ord = .ok ws) (ho : isAbs out = true) :
+    ws.Pairwise (fun a b => PrefixFree a.1 b.1) ∧
+    ∀ w ∈ ws, w.1 ≠ ['/'] ∧ w.1 ≠ clean out :=
+  plan_paths_prefixFree root out mods plugs ord ws h ho
+
+theorem cli_paths_prefix_free (cwd : Str) (tr : Option Str) (out : Str) (mods plugs ord) (ws : Files)
+    (h : cliPlan cwd tr out mods plugs ord = .ok ws) (hcwd : isAbs cwd = true) :
+    ws.Pairwise (fun a b => PrefixFree a.1 b.1) ∧
+    ∀ w ∈ ws, w.1 ≠ ['/'] ∧ w.1 ≠ clean (absPath cwd out) :=
+  cli_paths_prefixFree cwd tr out mods plugs ord ws h hcwd
+
+/-- The write loop over the file-system model, for ANY list of writes whose paths are cleaned,
+absolute, not "/" and pairwise prefix-free, started on a file system `fs` that is not in the
+way — `NotInTheWay fs ws`, exactly:
+  * no regular file of `fs` is one of the directories `MkdirAll(Dir(p))` has to provide for a
+    planned `p` (`needDirs p`: the proper ancestors of `p` below "/"), and
+  * no directory of `fs` is a planned path
+(a regular file AT a planned path is allowed: it is replaced) —
+writes everything, whatever the iteration order. Afterwards the regular files are the old ones
+that were not overwritten, followed by the plan. -/
+theorem write_loop_complete (fs : FS) (ws : Files)
     (hclean : ∀ a ∈ ws, CleanAbs a.1 ∧ a.1 ≠ ['/'])
-    (hpw : ws.Pairwise (fun a b => PrefixFree a.1 b.1)) :
-    ∃ fs', writeLoop ⟨[], []⟩ ws = (fs', true) ∧ fs'.files = ws :=
-  writeLoop_complete_prefixFree ws hclean hpw
+    (hpw : ws.Pairwise (fun a b => PrefixFree a.1 b.1))
+    (hfs : NotInTheWay fs ws) :
+    ∃ fs', writeLoop fs ws = (fs', true) ∧
+      fs'.files = fs.files.filter (fun x => !hasKey ws x.1) ++ ws :=
+  writeLoop_complete_prefixFree_on fs ws hclean hpw hfs
 
-/-- … in particular for a successful plan (its paths are cleaned and absolute by construction).
-`a ≠ b` is `plan_writes_distinct`; D33 violates prefix-freeness. -/
+/-- `NotInTheWay` spelled out, and its two obvious instances: the empty output tree; a tree
+whose regular files are not "/" nor a proper directory prefix of a planned path and whose
+directories are not planned paths. -/
+theorem not_in_the_way_def (fs : FS) (ws : Files) :
+    NotInTheWay fs ws ↔
+      ((∀ q, fs.isFile q = true → ∀ w ∈ ws, q ∉ needDirs w.1) ∧
+       (∀ d ∈ fs.dirs, ∀ w ∈ ws, d ≠ w.1)) := Iff.rfl
+
+theorem not_in_the_way_empty (ws : Files) : NotInTheWay ⟨[], []⟩ ws := notInTheWay_empty ws
+
+theorem not_in_the_way_of_prefix (fs : FS) (ws : Files)
+    (hclean : ∀ a ∈ ws, CleanAbs a.1 ∧ a.1 ≠ ['/'])
+    (hf : ∀ q, fs.isFile q = true → q ≠ ['/'] ∧ ∀ w ∈ ws, hasPrefix (q ++ ['/']) w.1 = false)
+    (hd : ∀ d ∈ fs.dirs, ∀ w ∈ ws, d ≠ w.1) : NotInTheWay fs ws :=
+  notInTheWay_of_prefix fs ws hclean hf hd
+
+/-- The hypothesis is exact: on a file system that IS in the way the loop fails — for any
+list of writes. -/
+theorem write_loop_needs_clear_way (fs : FS) (ws : Files) (h : (writeLoop fs ws).2 = true) :
+    NotInTheWay fs ws :=
+  writeLoop_ok_notInTheWay fs ws h
+
+/-- **The repaired D33, positively.** For EVERY accepted plan (absolute output directory,
+nothing else assumed) and every initial file system `fs`: the write loop succeeds iff `fs` is
+not in the way of the plan; and then it writes the whole plan — the regular files afterwards
+are the old ones that were not overwritten, followed by the plan. In particular
+(`not_in_the_way_empty`) it succeeds on an empty output tree: no accepted plan can make the
+write loop fail by itself any more. -/
 theorem plan_write_loop_complete (root out : Str) (mods plugs ord) (ws : Files)
-    (h : generatePlan root out mods plugs ord = .ok ws) (ho : isAbs out = true)
-    (hroot : ∀ w ∈ ws, w.1 ≠ ['/'])
-    (hpw : ws.Pairwise (fun a b => PrefixFree a.1 b.1)) :
-    ∃ fs', writeLoop ⟨[], []⟩ ws = (fs', true) ∧ fs'.files = ws :=
-  plan_writeLoop_complete root out mods plugs ord ws h ho hroot hpw
+    (h : generatePlan root out mods plugs ord = .ok ws) (ho : isAbs out = true) (fs : FS) :
+    ((writeLoop fs ws).2 = true ↔ NotInTheWay fs ws) ∧
+    (NotInTheWay fs ws → ∃ fs', writeLoop fs ws = (fs', true) ∧
+      fs'.files = fs.files.filter (fun x => !hasKey ws x.1) ++ ws) :=
+  plan_writeLoop_complete root out mods plugs ord ws h ho fs
 
-/-- Non-vacuity: three files in two directories are prefix-free; the D33 plan is not. -/
+theorem cli_write_loop_complete (cwd : Str) (tr : Option Str) (out : Str) (mods plugs ord) (ws : Files)
+    (h : cliPlan cwd tr out mods plugs ord = .ok ws) (hcwd : isAbs cwd = true) (fs : FS) :
+    ((writeLoop fs ws).2 = true ↔ NotInTheWay fs ws) ∧
+    (NotInTheWay fs ws → ∃ fs', writeLoop fs ws = (fs', true) ∧
+      fs'.files = fs.files.filter (fun x => !hasKey ws x.1) ++ ws) :=
+  cli_writeLoop_complete cwd tr out mods plugs ord ws h hcwd fs
+
+/-- … on the empty output tree, in one line. -/
+theorem plan_write_loop_complete_empty (root out : Str) (mods plugs ord) (ws : Files)
+    (h : generatePlan root out mods plugs ord = .ok ws) (ho : isAbs out = true) :
+    ∃ fs', writeLoop ⟨[], []⟩ ws = (fs', true) ∧ fs'.files = ws := by
+  obtain ⟨fs', h1, h2⟩ :=
+    (plan_write_loop_complete root out mods plugs ord ws h ho ⟨[], []⟩).2 (not_in_the_way_empty ws)
+  exact ⟨fs', h1, by simpa using h2⟩
+
+/-- Non-vacuity: an accepted plan and an output directory that holds another file, a stale
+`a.go` and the directory `main` already — not in the way (shown here through the converse:
+the loop succeeds); everything is written and `a.go` replaced. -/
+example :
+    generatePlan "/r".toList "/o".toList []
+        [some [("a.go".toList, [1]), ("main/x.go".toList, [2])]] [0]
+      = .ok [("/o/a.go".toList, [1]), ("/o/main/x.go".toList, [2])] ∧
+    NotInTheWay
+      ⟨[("/o/existing.txt".toList, [9]), ("/o/a.go".toList, [7])], ["/o".toList, "/o/main".toList]⟩
+      [("/o/a.go".toList, [1]), ("/o/main/x.go".toList, [2])] ∧
+    writeLoop ⟨[("/o/existing.txt".toList, [9]), ("/o/a.go".toList, [7])], ["/o".toList, "/o/main".toList]⟩
+        [("/o/a.go".toList, [1]), ("/o/main/x.go".toList, [2])]
+      = (⟨[("/o/existing.txt".toList, [9]), ("/o/a.go".toList, [1]), ("/o/main/x.go".toList, [2])],
+          ["/o".toList, "/o/main".toList]⟩, true) :=
+  ⟨write_loop_blocked_witness.1,
+   write_loop_needs_clear_way _ _ (by rw [write_loop_existing_witness]),
+   write_loop_existing_witness⟩
+
+/-- Non-vacuity of `write_loop_complete`'s hypotheses: three files in two directories are
+prefix-free, cleaned, absolute; the old D33 pair is not prefix-free. -/
 example :
     [("/o/a/a.go".toList, ([1] : Content)), ("/o/a/b/c.go".toList, [2]), ("/o/d.go".toList, [3])].Pairwise
       (fun a b => PrefixFree a.1 b.1) ∧
@@ -416,5 +540,24 @@ example :
       (isAbs a.1 = true ∧ clean a.1 = a.1) ∧ a.1 ≠ ['/']) ∧
     needDirs "/o/a/b/c.go".toList = ["/o".toList, "/o/a".toList, "/o/a/b".toList] ∧
     ¬ PrefixFree "/o/main/main.go".toList "/o/main".toList := by decide
+
+/-! ### 10. what remains: the write loop by itself is not atomic -/
+
+/-- The write loop stops at the first failing write and keeps what it wrote. (a) Given two
+writes that clash — which no accepted plan contains any more (`plan_paths_prefix_free`) — it
+fails after the first file. (b) NEGATION witness for atomicity under OS-level failures, which
+C17 does not claim: an ACCEPTED plan on an output directory that is in the way (a regular file
+`main` where the plan needs a directory) fails after `a.go` was written. -/
+theorem write_loop_not_atomic :
+    (∃ fs, writeLoop ⟨[], []⟩ [("/o/main/main.go".toList, [1]), ("/o/main".toList, [2])] = (fs, false) ∧
+      fs.files ≠ []) ∧
+    (generatePlan "/r".toList "/o".toList []
+        [some [("a.go".toList, [1]), ("main/x.go".toList, [2])]] [0]
+      = .ok [("/o/a.go".toList, [1]), ("/o/main/x.go".toList, [2])] ∧
+     ∃ fs, writeLoop ⟨[("/o/main".toList, [9])], ["/o".toList]⟩
+        [("/o/a.go".toList, [1]), ("/o/main/x.go".toList, [2])] = (fs, false) ∧
+      fs.files ≠ [("/o/main".toList, [9])]) :=
+  ⟨⟨_, write_loop_not_atomic_witness, by decide⟩,
+   write_loop_blocked_witness.1, _, write_loop_blocked_witness.2, by decide⟩
 
 end ThriftVerif.Properties.C17
